@@ -1,7 +1,9 @@
 #!/bin/bash
 # Runs every seeded change against the checks its meta.json says catch it; prints one line per (change, check).
 # usage: run_seeded.sh [id ...]   (default: all)
-cd /verif/seeded || exit 2
+ROOT=$(cd "$(dirname "$0")/.." && pwd)
+REPO="${VERIF_REPO:-/repo}"
+cd "$ROOT/seeded" || exit 2
 ids=${@:-$(ls)}
 for id in $ids; do
   [ -f $id/patch.diff ] || continue
@@ -9,13 +11,13 @@ for id in $ids; do
 import json,re,sys
 m=json.load(open('$id/meta.json'))
 print(' '.join(sorted({re.match(r'(C[0-9]+)',c).group(1) for c in m['caught_by'] if re.match(r'(C[0-9]+)',c)})))")
-  if [ -n "$(git -C /repo status --porcelain)" ]; then echo "/repo is not clean"; exit 2; fi
-  git -C /repo apply /verif/seeded/$id/patch.diff || { echo "$id: patch does not apply"; continue; }
+  if [ -n "$(git -C "$REPO" status --porcelain)" ]; then echo "$REPO is not clean"; exit 2; fi
+  git -C "$REPO" apply "$ROOT/seeded/$id/patch.diff" || { echo "$id: patch does not apply"; continue; }
   for c in $checks; do
-    out=$(cd /verif && timeout 1800 ./run.sh $c quick 2>&1); rc=$?
+    out=$(cd "$ROOT" && timeout 1800 ./run.sh $c quick 2>&1); rc=$?
     keys=$(echo "$out" | grep "what:" | sed 's/.*what: //' | tr '\n' ';')
     echo "$id $c exit=$rc $keys"
   done
-  git -C /repo checkout -- .
-  rm -f /verif/replays/*.json
+  git -C "$REPO" checkout -- .
+  rm -f "$ROOT"/replays/*.json
 done
